@@ -62,7 +62,8 @@ def run_real(ops=None, rng=None, maxlen=12, p_invalid=0.12, allow_self_extend=Tr
         O.before(op)
         oc = R.step(op)
         done.append(op)
-        snaps.append(K.canon(R.snapshot(oc)))
+        # after a call that did not return the state is not observed (only the outcome is compared)
+        snaps.append((("div",), []) if oc[0] == "div" else K.canon(R.snapshot(oc)))
         for key, what, excuse in O.after(op, oc):
             finds.append((k, key, what, excuse))
         k += 1
@@ -76,6 +77,8 @@ def first_mismatch(real_snaps, model_rows):
         if k >= len(model_rows):
             return k, "model produced %d steps, implementation %d" % (len(model_rows), len(real_snaps))
         ms = model_rows[k][0]
+        if rs[0] == ("div",) and ms[0] == ("div",):
+            continue
         if ms != rs:
             return k, "step %d: implementation %s, model %s" % (k, json.dumps(rs)[:600], json.dumps(ms)[:600])
     return None
@@ -214,7 +217,7 @@ def run(ctx):
         return
     T = Tally(ctx)
     quick = ctx.tier == "quick"
-    nseq = 2000 if quick else 30000
+    nseq = 6000 if quick else 60000
     maxlen = 12 if quick else 40
     budget_s = 110 if quick else 900
     t0 = time.time()
@@ -262,8 +265,7 @@ def run(ctx):
         n_rand += 1
         if len(batch) >= 400:
             flush()
-            if n_rand <= 400:
-                ctx.sample({"ops": K.seq_text(done)})
+            ctx.sample({"ops": K.seq_text(done)})
     flush()
 
     # correspondence verdict; minimise the first disagreements and hand them to the finder
